@@ -1,7 +1,7 @@
 SPECIFICATION Spec
 CONSTANTS
   Members = {1, 2, 3}
-  Plain = {"a", "b"}
+  Plain = {"a", ""}
   Prefixes = {"g"}
   MaxNum = 6
   GenAsPinned = FALSE
